@@ -3,7 +3,9 @@
 //! invalid numbers.  Each case in a forked child.
 //!
 //!   p_c14x <sig>...      per (exfiltrator, entry, sig):
-//!     X <exf raw|origin> <entry new|add> <sig> <outcome ok|err:<errno>|panic> <disposition unchanged 0|1> <fds leaked>
+//!     (entry new2 = constructor with the list [SIGUSR1, sig]: a valid signal is registered first, then the refusal unwinds
+//!      through the half-built instance; also for the default exfiltrator, exf = only)
+//!     X <exf raw|origin|only> <entry new|add|new2> <sig> <outcome ok|err:<errno>|panic> <disposition unchanged 0|1> <fds leaked>
 use sh_harness::forked::{reset_all_dispositions, run_child, Outcome};
 use signal_hook::iterator::exfiltrator::origin::WithOrigin;
 use signal_hook::iterator::exfiltrator::{Exfiltrator, WithRawSiginfo};
@@ -42,6 +44,21 @@ fn case<E: Exfiltrator + Default>(entry: &str, sig: i32) -> String {
             Ok(Err(e)) => format!("err:{}", e.raw_os_error().unwrap_or(-1)),
             Err(_) => "panic".to_string(),
         };
+    } else if entry == "new2" {
+        fds0 = open_fds();
+        outcome = match catch_unwind(AssertUnwindSafe(|| SignalsInfo::<E>::new(&[libc::SIGUSR1, sig]))) {
+            Ok(Ok(s)) => {
+                drop(s);
+                "ok".to_string()
+            }
+            Ok(Err(e)) => format!("err:{}", e.raw_os_error().unwrap_or(-1)),
+            Err(_) => "panic".to_string(),
+        };
+        // the registration of SIGUSR1 the constructor had made must be gone again
+        #[allow(deprecated)]
+        let left = signal_hook_registry::unregister_signal(libc::SIGUSR1);
+        let after = disposition(sig);
+        return format!("{} {} {}", outcome, (after == before && !left) as i32, open_fds() - fds0);
     } else {
         let inst = SignalsInfo::<E>::new(&[libc::SIGUSR1]).unwrap();
         fds0 = open_fds();
@@ -61,8 +78,11 @@ fn case<E: Exfiltrator + Default>(entry: &str, sig: i32) -> String {
 
 fn main() {
     let sigs: Vec<i32> = std::env::args().skip(1).filter_map(|a| a.parse().ok()).collect();
-    for exf in ["raw", "origin"] {
-        for entry in ["new", "add"] {
+    for exf in ["raw", "origin", "only"] {
+        for entry in ["new", "add", "new2"] {
+            if exf == "only" && entry != "new2" {
+                continue;
+            }
             for &sig in &sigs {
                 let mut fds = [0i32; 2];
                 unsafe { libc::pipe(fds.as_mut_ptr()) };
@@ -73,7 +93,13 @@ fn main() {
                             libc::close(rd);
                             reset_all_dispositions();
                         }
-                        let s = if exf == "raw" { case::<WithRawSiginfo>(entry, sig) } else { case::<WithOrigin>(entry, sig) };
+                        let s = if exf == "raw" {
+                            case::<WithRawSiginfo>(entry, sig)
+                        } else if exf == "origin" {
+                            case::<WithOrigin>(entry, sig)
+                        } else {
+                            case::<signal_hook::iterator::exfiltrator::SignalOnly>(entry, sig)
+                        };
                         let mut f = unsafe { std::fs::File::from_raw_fd(wr) };
                         let _ = f.write_all(s.as_bytes());
                         0
